@@ -146,6 +146,13 @@ func suiteDiff(tier string, seed uint64, model string) *Report {
 	for _, ig := range igs {
 		cases = append(cases, cs{base, other, ig}, cs{other, base, ig}, cs{base, base, ig})
 	}
+	// integers that differ but round to the same float64, at every nesting kind
+	for _, pr := range [][2]int64{{1 << 53, 1<<53 + 1}, {9223372036854775806, 9223372036854775807}, {-(1 << 53), -(1 << 53) - 1}, {1 << 60, 1<<60 + 64}, {5, 5}} {
+		x, y := pr[0], pr[1]
+		cases = append(cases, cs{x, y, nil}, cs{[]any{int64(1), x}, []any{int64(1), y}, nil},
+			cs{map[string]any{"a": map[string]any{"b": x}}, map[string]any{"a": map[string]any{"b": y}}, nil},
+			cs{[]any{map[string]any{"a": x}, "s"}, []any{map[string]any{"a": y}, "s"}, nil})
+	}
 	for i := 0; i < n; i++ {
 		var a any
 		if r.Chance(50) {
